@@ -75,6 +75,19 @@ func H_C17(tbl, router int) {
 		ot := ht.run(twin, vReq{method: m, path: p})
 		verifAssert(vSameOutcome(o, ot), "C17: the OPTIONS filter changes how a non-OPTIONS request is answered")
 	}
+	// one more method, symbolic: any method no route declares (HEAD, PATCH, ...) must be neither routable nor listed
+	mx := nondetString("method", 7)
+	verifAssume(mx != "OPTIONS")
+	for _, m := range methods {
+		verifAssume(mx != m)
+	}
+	ox := h.run(c, vReq{method: mx, path: p})
+	routableX := ox.status != 404 && ox.status != 405
+	verifCoverIf("undeclared-method-405", ox.status == 405)
+	if ox.status == 405 {
+		any405 = true
+		allow405 = ox.allow
+	}
 	// the 405 Allow set
 	if any405 {
 		verifCover("405")
@@ -85,6 +98,7 @@ func H_C17(tbl, router int) {
 		for _, m := range set {
 			verifAssert(vContains(methods, m), "C17: 405 Allow header lists a method no route has")
 		}
+		verifAssert(!routableX, "C17: a method that no route declares is routable but the 405 Allow header does not list it")
 	}
 	// the OPTIONS filter
 	rec := vNewRec()
@@ -119,4 +133,5 @@ func H_C17(tbl, router int) {
 	for i, m := range methods {
 		verifAssert(routable[i] == vContains(set, m), "C17: the OPTIONS filter does not list exactly the routable methods")
 	}
+	verifAssert(!routableX, "C17: a method that no route declares is routable but the OPTIONS filter does not list it")
 }
